@@ -34,6 +34,8 @@ THEOREMS = [
     "Typedpy.C07.sync_in_region",
     "Typedpy.C07.mapper_round_trip_region",
     "Typedpy.C07.region_example",
+    "Typedpy.C07.camel_idempotent_ascii",
+    "Typedpy.C07.mapper_round_trip_region_ascii",
 ]
 RULE = ("class hierarchies (1-3 levels of single inheritance, fresh classes per case) with 1-7 Integer / nested "
         "fields (nested classes directly, in Array, in Set; nesting depth <= 3), per-class _serialization_mapper "
